@@ -263,12 +263,25 @@ def gen_settings(rng, max_pto=2, allow_n3lo=False, cheap=False):
             th.pop(k, None)
     if ob.get("ProjectileDIS") == "electron" and rng.random() < 0.1:
         ob.pop("ProjectileDIS")
+    if pto <= 1 and rng.random() < (0.04 if pto == 0 else 0.015):
+        # production-sized interpolation grids (eko's make_grid(n_low, n_mid) shape: log-spaced below 0.1,
+        # linear above): 30 or 50 nodes where every generated grid so far stopped at 9
+        ob["interpolation_xgrid"] = wide_grid(*rng.choice([(20, 10), (20, 10), (30, 20)]))
+        ob["interpolation_is_log"] = True
+        ob["interpolation_polynomial_degree"] = rng.choice([1, 4])
     if pto >= 3:
         # N3LO: only affordable on a 5-node grid (DESIGN §2.5)
         ob["interpolation_xgrid"] = list(GRIDS_LOG[0])
         ob["interpolation_is_log"] = True
         ob["interpolation_polynomial_degree"] = rng.randint(1, 3)
     return th, ob
+
+
+def wide_grid(n_low, n_mid, x_min=1e-4):
+    """A production-like grid: n_low nodes log-spaced in [x_min, 0.1), n_mid linear in [0.1, 1]."""
+    low = [float(repr(x_min * (0.1 / x_min) ** (i / n_low))[:12]) for i in range(n_low)]
+    mid = [round(0.1 + 0.9 * i / (n_mid - 1), 10) for i in range(n_mid)]
+    return low + mid
 
 
 def matching_q2(th):
